@@ -144,40 +144,98 @@ def pushes_prepare(node):
     return False
 
 
+def _is_prepare_push(c):
+    return c.get("k") == "call" and ((c.get("callee") or "").startswith("quote::__private::push_ident") or (c.get("callee") or "").endswith("push_ident")) and \
+        any(H.peel_ref(a).get("k") == "lit" and H.peel_ref(a)["lit"].get("v") == "prepare" for a in c.get("args") or [])
+
+
+def _classify_cond(f, cond, taken, fn):
+    """what a branch decision says about the validity of the written name:
+    ('valid', arg expr) | ('flag', local name) | ('param', index) | None   (only when the decision means `valid`)"""
+    cond = H.peel_ref(cond)
+    while cond.get("k") == "unary" and cond.get("op") == "not":
+        cond = H.peel_ref(cond["e"])
+        taken = not taken
+    if not taken:
+        return None
+    if cond.get("k") == "call" and cond.get("callee") == "crate::must_be_valid_iden":
+        return ("valid", cond["args"][0])
+    if cond.get("k") == "local":
+        names = [p_["pat"].get("name") for p_ in fn.get("params") or []]
+        if cond["name"] in names:
+            return ("param", names.index(cond["name"]))
+        return ("flag", cond["name"])
+    return None
+
+
+def push_guards(f, fname):
+    """for every path of `fname` that generates the tokens of `fn prepare`: the decision on that path that means `the name is
+    plain`.  Returns (number of pushing paths, list of guards, list of problems); (0, [], []) if the function never pushes"""
+    fn = f.fns[fname]
+    npush, guards, problems = 0, [], []
+    for p_ in P.fn_paths(fn["hir"]):
+        if not any(_is_prepare_push(c) for c in p_.calls()):
+            continue
+        npush += 1
+        found = None
+        for c in p_.conds:
+            if c[0] == "if":
+                g = _classify_cond(f, c[1], c[2], fn)
+                if g is not None:
+                    found = g
+        if found is None:
+            problems.append("a path of %s generates `fn prepare` under no validity condition" % fname.rsplit("::", 1)[-1])
+        else:
+            guards.append(found)
+    return npush, guards, problems
+
+
 def check_guards(run, f, cfg):
+    # helpers that generate the fast path under a bool parameter
+    helpers = {}
+    for name, fn in f.fns.items():
+        if fn.get("kind") != "fn" or fn.get("hir") is None or not name.startswith("crate::") or name in ("crate::impl_iden_for_unit_struct", "crate::impl_iden_for_enum"):
+            continue
+        if any(_is_prepare_push(c) for c in H.calls(fn["hir"])):
+            n_, gs, probs = push_guards(f, name)
+            helpers[name] = (n_, gs, probs)
     for fname, kind in (("crate::impl_iden_for_unit_struct", "unit"), ("crate::impl_iden_for_enum", "enum")):
         fn = f.fns.get(fname)
         if fn is None:
             run.anchor("C19.R2", fname, "not found", cfg)
             continue
         body = fn["hir"]
-        ifs = [n for n in walk(body) if n.get("k") == "if"]
-        guarded = []
-        for n in ifs:
-            th, el = n["then"], n.get("else")
-            if pushes_prepare(th) or (el is not None and pushes_prepare(el)):
-                # innermost ifs only
-                if not any(pushes_prepare(x) and x is not n for x in walk(th) if x.get("k") == "if"):
-                    guarded.append(n)
-        total = sum(1 for c in H.calls(body) if pushes_prepare({"k": "block", "stmts": [], "expr": c}) and c.get("k") == "call" and
-                    any(H.peel_ref(a).get("k") == "lit" and H.peel_ref(a)["lit"].get("v") == "prepare" for a in c.get("args") or []))
-        inside = sum(1 for n in guarded for c in H.calls(n["then"]) if c.get("k") == "call" and
-                     any(H.peel_ref(a).get("k") == "lit" and H.peel_ref(a)["lit"].get("v") == "prepare" for a in c.get("args") or []))
-        run.ob("C19.R2", "%s:prepare-only-guarded" % kind, len(guarded) == 1 and total == inside and total >= 1,
-               "%s: the tokens of `fn prepare` are produced only inside the then-branch of one `if`" % fname.rsplit("::", 1)[-1], sp=fn["sp"], cfg=cfg,
-               detail={"ifs": len(guarded), "pushes": total, "guarded": inside})
-        if len(guarded) != 1:
+        npush, guards, problems = push_guards(f, fname)
+        # calls to a helper: the argument bound to the helper's guarding parameter is the guard
+        for c in H.calls(body):
+            h = c.get("callee") if c.get("k") == "call" else None
+            if h in helpers:
+                n_, gs, probs = helpers[h]
+                problems += probs
+                for g in gs:
+                    if g[0] == "param":
+                        a = H.peel_ref(c["args"][g[1]])
+                        g2 = _classify_cond(f, a, True, fn)
+                        if g2 is None or g2[0] == "param":
+                            problems.append("%s is called with a condition that is not a validity test: %s" % (h.rsplit("::", 1)[-1], a.get("src")))
+                        else:
+                            guards.append(g2)
+                            npush += 1
+                    else:
+                        problems.append("%s guards the fast path by something of its own (%s)" % (h.rsplit("::", 1)[-1], g[0]))
+        run.ob("C19.R2", "%s:prepare-only-guarded" % kind, npush >= 1 and not problems,
+               "%s: the tokens of `fn prepare` are generated only on paths where a validity condition holds (directly or through a helper taking the "
+               "condition)%s" % (fname.rsplit("::", 1)[-1], "" if not problems else " - NOT: " + "; ".join(problems)), sp=fn["sp"], cfg=cfg,
+               detail={"pushing_paths": npush, "guards": [g[0] for g in guards]})
+        if not guards:
             continue
-        g = guarded[0]
-        cond = H.peel_ref(g["cond"])
-        run.ob("C19.R2", "%s:else-empty" % kind, g.get("else") is None or not pushes_prepare(g["else"]), "the else-branch generates no `prepare`", sp=fn["sp"], cfg=cfg)
         if kind == "unit":
-            ok = cond.get("k") == "call" and cond.get("callee") == "crate::must_be_valid_iden" and H.place(cond["args"][0]) == fn["params"][1]["pat"].get("name")
+            ok = all(g[0] == "valid" and H.place(g[1]) == fn["params"][1]["pat"].get("name") for g in guards)
             run.ob("C19.R2", "unit:guard", ok, "unit struct: the fast path is guarded by must_be_valid_iden(table_name) of the very name that is written", sp=fn["sp"], cfg=cfg)
-            # the name written by unquoted is that same table_name
         else:
-            ok = cond.get("k") == "local"
-            flag = cond.get("name") if ok else None
+            flags = set(g[1] for g in guards if g[0] == "flag")
+            ok = len(flags) == 1 and all(g[0] == "flag" for g in guards)
+            flag = list(flags)[0] if ok else None
             run.ob("C19.R2", "enum:guard", ok, "enum: the fast path is guarded by the flag `%s`" % flag, sp=fn["sp"], cfg=cfg)
             if ok:
                 inits = [n for n in walk(body) if n.get("k") == "stmt_let" and n["pat"].get("k") == "bind" and n["pat"]["name"] == flag]
@@ -232,7 +290,18 @@ def check_name_sources(run, f, cfg):
         run.ob("C19.R3", "get_table_name:default", ok, "without a container attribute the table name is snake_case(type identifier)", sp=g["sp"], cfg=cfg)
         # Rename(lit) => lit
         arms = [a for m in walk(g["hir"]) if m.get("k") == "match" for a in m["arms"] if "Rename" in str((a["pat"].get("path") or {}).get("def"))]
-        ok = len(arms) == 1 and H.place(arms[0]["body"]) == (arms[0]["pat"].get("subs") or [{}])[0].get("name")
+        def yielded(b):
+            # the value an arm yields, through `Ok(..)`, `return ..` and one-expression blocks
+            b = H.peel_ref(H.peel(b))
+            while isinstance(b, dict):
+                if b.get("k") == "call" and b.get("callee") == "core::result::Result::Ok" and len(b.get("args") or []) == 1:
+                    b = H.peel_ref(H.peel(b["args"][0]))
+                elif b.get("k") == "ret" and b.get("e") is not None:
+                    b = H.peel_ref(H.peel(b["e"]))
+                else:
+                    break
+            return b
+        ok = len(arms) == 1 and H.place(yielded(arms[0]["body"])) == (arms[0]["pat"].get("subs") or [{}])[0].get("name")
         run.ob("C19.R3", "get_table_name:rename", ok, "a container rename attribute yields its literal unchanged", sp=g["sp"], cfg=cfg)
     w = f.fns.get("crate::iden::write_arm::IdenVariant::<'a, T>::write_variant_name")
     if w is None:
